@@ -118,6 +118,22 @@ Theorem C14_all_paths_filtered_refuted : unfiltered shape_at_writing reviewed_si
 Proof. exact all_paths_filtered_refuted. Qed.
 Print Assumptions C14_all_paths_filtered_refuted.
 
+(* GOVERNANCE of the freeze lists (TokensWhiteBlackChange proposal handler, addTokens): after a
+   passed "add" proposal a token is on the list iff it was there or is named -- every named token,
+   whatever its position in the proposal's list and whatever was already listed ... *)
+Theorem C14_add_proposal_lists_every_named_token : forall addings origin x,
+  In x (add_tokens origin addings) <-> In x origin \/ In x addings.
+Proof. exact add_tokens_In. Qed.
+Print Assumptions C14_add_proposal_lists_every_named_token.
+
+(* ... so, with the blacklist on, every named non-native token is frozen afterwards (and then
+   C14_frozen_never_moves_partial / C14_fee_coins_not_frozen apply to it) *)
+Theorem C14_add_to_blacklist_freezes_every_named_token : forall f toks x,
+  f_en_black f = true -> In x toks -> x <> f_native f ->
+  frozen (with_bw f (apply_prop (f_bw f) (mkProp true true toks))) x = true.
+Proof. exact add_proposal_then_frozen. Qed.
+Print Assumptions C14_add_to_blacklist_freezes_every_named_token.
+
 (* the tree is inside the translator's fragment; both filters sit in the chain after the fee
    deduction and before signature verification, as modelled *)
 Theorem C14_translation_side_conditions :
